@@ -177,6 +177,13 @@ def fold(e):
 
         def visit_Call(self, n):
             self.generic_visit(n)
+            # {K1: v1, K2: v2}.get(K[, default]) over a literal table with comparable keys
+            if isinstance(n.func, ast.Attribute) and n.func.attr == "get" and isinstance(n.func.value, ast.Dict) and 1 <= len(n.args) <= 2 \
+                    and not n.keywords and _symconst(n.args[0]) is not None \
+                    and all(k is not None and _symconst(k) is not None for k in n.func.value.keys) \
+                    and _comparable([_symconst(n.args[0])] + [_symconst(k) for k in n.func.value.keys]):
+                hit = [v for k, v in zip(n.func.value.keys, n.func.value.values) if _symconst(k) == _symconst(n.args[0])]
+                return hit[-1] if hit else (n.args[1] if len(n.args) == 2 else ast.Constant(None))
             # Enum(Enum.MEMBER) is Enum.MEMBER
             if isinstance(n.func, ast.Name) and len(n.args) == 1 and not n.keywords:
                 sc = _symconst(n.args[0])
@@ -416,6 +423,12 @@ def _summarize(func, mutators=None, env0=None):
     sm = Summary()
     if _has_yield(func):
         raise Unsupported("generator function")
+    for n_ in ast.walk(func):
+        # bindings the composition does not model (normalize.hoist_walrus moves the common `if (x := e).m():` in front of its statement)
+        if isinstance(n_, ast.NamedExpr):
+            raise Unsupported(f"assignment expression at line {getattr(n_, 'lineno', '?')}")
+        if isinstance(n_, ast.Match):
+            raise Unsupported(f"match statement at line {getattr(n_, 'lineno', '?')}")
 
     local_callables = _alias.local_callable_names(func)
     pc = []   # branch conditions under which the current block runs (raising guards before it are implicit by order)
@@ -913,6 +926,16 @@ def _simplify(c):
             return terms[0]
         return ("*",) + tuple(sorted(terms, key=repr))
     if c and c[0] in ("&", "|") and all(not isinstance(t, str) or True for t in c[1:]):
+        # the neutral element of an accumulation `mask = np.zeros(n, dtype=bool); mask |= a; mask |= b` (ones for &): a boolean
+        # array of zeros changes nothing in an element-wise `|` (a shape that does not fit the other operands raises at run time)
+        def neutral(t):
+            want = "np.zeros" if c[0] == "|" else "np.ones"
+            return isinstance(t, tuple) and len(t) == 4 and t[0] == "call" and t[1] == want and ("dtype", "bool") in (t[3] or ())
+        rest = [t for t in c[1:] if not neutral(t)]
+        if rest and len(rest) < len(c) - 1:
+            if len(rest) == 1:
+                return rest[0]
+            return (c[0],) + tuple(sorted(rest, key=repr))
         return (c[0],) + tuple(sorted(c[1:], key=repr))      # operands replaced by the hoisting are put in order again
     return c
 
@@ -1174,6 +1197,83 @@ def contains_expr(root, src):
             except Exception:
                 continue
     return False
+
+
+def calls_under_paths(block, names, env0=None):
+    """[(conditions, call)] for every call of one of `names` in a statement list: `conditions` are the tests (as written, negated
+    for else arms, locals substituted) of the ifs the call sits under, `call` has the locals that were assigned plain
+    expressions on its path substituted by those expressions (`box_for_model` -> `box[i]`).  Loops, with and try bodies are
+    entered without a condition; what they bind becomes unknown."""
+    out = []
+
+    def walk(stmts_, env, conds):
+        for k, st in enumerate(stmts_):
+            if isinstance(st, (ast.FunctionDef, ast.AsyncFunctionDef, ast.ClassDef)):
+                continue
+            if isinstance(st, ast.If):
+                t = subst(st.test, env)
+                collect(st.test, env, conds)
+                rest = list(stmts_[k + 1:])
+                walk(list(st.body) + rest, dict(env), conds + [t])
+                walk(list(st.orelse) + rest, dict(env), conds + [ast.UnaryOp(op=ast.Not(), operand=copy.deepcopy(t))])
+                return
+            if isinstance(st, (ast.Raise, ast.Return, ast.Continue, ast.Break)):
+                collect(st, env, conds)
+                return
+            if isinstance(st, (ast.For, ast.AsyncFor, ast.While, ast.With, ast.AsyncWith, ast.Try)):
+                for n in _assigned_names([st]):
+                    env[n] = ast.Name(id=n + "'", ctx=ast.Load())
+                inner_env = dict(env)
+                if isinstance(st, (ast.For, ast.AsyncFor)):
+                    # inside the body the loop variable is the current item: it stands for itself
+                    for t in ast.walk(st.target):
+                        if isinstance(t, ast.Name):
+                            inner_env.pop(t.id, None)
+                for fld in ("body", "orelse", "finalbody"):
+                    walk(list(getattr(st, fld, []) or []), dict(inner_env), list(conds))
+                for h in getattr(st, "handlers", []) or []:
+                    walk(list(h.body), dict(env), list(conds))
+                continue
+            collect(st, env, conds)
+            if isinstance(st, ast.Assign) and len(st.targets) == 1 and isinstance(st.targets[0], ast.Name):
+                env[st.targets[0].id] = subst(st.value, env)
+            elif isinstance(st, ast.AugAssign) and isinstance(st.target, ast.Name):
+                cur = env.get(st.target.id, ast.Name(id=st.target.id, ctx=ast.Load()))
+                env[st.target.id] = ast.BinOp(left=copy.deepcopy(cur), op=st.op, right=subst(st.value, env))
+            else:
+                for n in _assigned_names([st]):
+                    env[n] = ast.Name(id=n + "'", ctx=ast.Load())
+
+    def collect(node, env, conds):
+        for c in ast.walk(node):
+            if isinstance(c, ast.Call) and (call_name(c) or "") in names:
+                # a call in the element of a comprehension runs under the comprehension's filters
+                extra = []
+                for comp in ast.walk(node):
+                    if isinstance(comp, (ast.ListComp, ast.SetComp, ast.GeneratorExp, ast.DictComp)) and any(y is c for y in ast.walk(comp)) \
+                            and not any(y is c for g in comp.generators for y in ast.walk(g)):
+                        for g in comp.generators:
+                            extra.extend(subst(t, env) for t in g.ifs)
+                out.append(([copy.deepcopy(x) for x in conds] + extra, subst(c, env)))
+    walk(list(block), dict(env0 or {}), [])
+    return out
+
+
+def split_conditionals(conds, e):
+    """[(conditions, expression without conditional expressions)]: every `a if t else b` inside `e` is decided both ways and the
+    test (or its negation) joins the conditions - statements and expressions that branch become the same set of paths"""
+    for n in ast.walk(e):
+        if isinstance(n, ast.IfExp):
+            out = []
+            for val, cond in ((n.body, n.test), (n.orelse, ast.UnaryOp(op=ast.Not(), operand=copy.deepcopy(n.test)))):
+                class R(ast.NodeTransformer):
+                    def visit_IfExp(self, x):
+                        if ast.dump(x.test) == ast.dump(n.test):
+                            return self.visit(copy.deepcopy(x.body if val is n.body else x.orelse))
+                        return self.generic_visit(x)
+                out.extend(split_conditionals(list(conds) + [copy.deepcopy(cond)], R().visit(copy.deepcopy(e))))
+            return out
+    return [(list(conds), e)]
 
 
 _CODE_INDEX = {}
